@@ -248,6 +248,11 @@ func (s *Synchronizer) verifyTimeoutSignatures(timeout hotstuff.TimeoutMsg) erro
 		return fmt.Errorf("view signature: %w", err)
 	}
 	if s.config.HasAggregateQC() {
+		// the aggregate QC lists, for every signer, the QC that signer attested: a timeout without one cannot
+		// be part of it (its signature would be in the aggregate with nothing to verify it against).
+		if _, ok := timeout.SyncInfo.QC(); !ok {
+			return fmt.Errorf("timeout message of replica %d carries no QC", timeout.ID)
+		}
 		if !signedOnlyBy(timeout.MsgSignature, timeout.ID) {
 			return fmt.Errorf("message signature is not a signature of replica %d alone", timeout.ID)
 		}
